@@ -45,6 +45,9 @@ DepthFdOk(r) ==
     ELSE IF G!MaxDepthOf(d) <= r.D - 1 THEN r.has /\ r.val = d.v
     ELSE ~r.has /\ r.too_deep
 
+\* the too-deep value spelled in one of json-c's other ways (default mode): same verdict at the same place
+DepthAltOk(r) == (r.rfc.st = "depth") => (r.got.st = "depth" /\ r.got.end = r.rfc.end)
+
 HostileOk(r) ==
     LET unit == IF r.pat = 0 THEN 1 ELSE 5 IN
     /\ \A i \in 1..Len(r.runs) :
@@ -67,6 +70,7 @@ InjectOk(r) ==
         p == G!Permissive(r.text) IN
     IF ~e.ok \/ ~p.ok \/ ExtName(r.kind) \notin p.ext THEN PrintT(<<"GEN", l>>)
     ELSE /\ r.strict.st # "success"
+         /\ r.strict_utf8.st # "success"            \* strict mode is strict whatever other flags accompany it
          /\ r.deflt.st = "success" /\ r.deflt.val = e.v
          /\ (r.kind = "trailing_chars" /\ e.big) => r.trail.st # "success"      \* strict refuses the oversize integer itself
          /\ (r.kind = "trailing_chars" /\ ~e.big) =>
@@ -76,7 +80,7 @@ InjectOk(r) ==
 
 StepOfImpl(s, r) ==
     [ok |-> CASE r.e = "parse" -> ParseOk(r)
-              [] r.e = "depth" -> DepthOk(r) [] r.e = "depthfd" -> DepthFdOk(r)
+              [] r.e = "depth" -> DepthOk(r) [] r.e = "depthfd" -> DepthFdOk(r) [] r.e = "depthalt" -> DepthAltOk(r)
               [] r.e = "hostile" -> HostileOk(r)
               [] r.e = "newex" -> r.refused
               [] r.e = "inject" -> InjectOk(r)
